@@ -140,6 +140,24 @@ def _sign_uses(ctx, f, target):
     return n, bad
 
 
+EVEN_CALLS = ("isnan", "isinf", "isfinite", "bool", "len", "isinstance", "str", "hash")
+
+
+def _even_key_components(key):
+    """components of a sort key that do not change sign with the metric (tests, flags, constants, ids): a reversed sort
+    reverses them as well, which is not what negating the metric does."""
+    if not isinstance(key, ast.Lambda):
+        return []
+    body = key.body
+    comps = list(body.elts) if isinstance(body, ast.Tuple) else [body]
+    out = []
+    for c in comps:
+        if isinstance(c, (ast.Compare, ast.BoolOp, ast.Constant)) or (isinstance(c, ast.UnaryOp) and isinstance(c.op, ast.Not)) \
+                or (isinstance(c, ast.Call) and fn_name(c) in EVEN_CALLS):
+            out.append(U(c))
+    return out
+
+
 def classify(ctx, f, node):
     """Returns (shape, ok, detail) for a mode-dependent construct; shape None = not understood."""
     par = getattr(node, "_parent", None)
@@ -153,12 +171,21 @@ def classify(ctx, f, node):
         uses = [x for x in walk_shallow(f.node) if isinstance(x, ast.keyword) and x.arg == "reverse" and U(x.value) == tgt]
         if isinstance(par.targets[0], ast.Name) and loads and len(loads) == len(uses):
             # a local whose only uses are `reverse=<it>` of a sort
+            for u in uses:
+                call = getattr(u, "_parent", None)
+                ev = _even_key_components(kwarg(call, "key")) if isinstance(call, ast.Call) else []
+                if ev:
+                    return "reverse-flag", False, f"reverse={tgt} also reverses the mode-independent key component(s) {ev}"
             return "reverse-flag", m == "max" and bool(uses), f"{tgt} = (mode == 'max'), used as reverse= in {len(uses)} sort(s)"
         return None, False, f"mode test assigned to `{tgt}`"
     if isinstance(par, ast.keyword) and par.arg == "reverse":
         call = getattr(par, "_parent", None)
         key = kwarg(call, "key") if isinstance(call, ast.Call) else None
         neg = key is not None and "-" in U(key)
+        ev = _even_key_components(key)
+        if ev:
+            return "reverse-kw", False, (f"reverse=(mode=='max') also reverses the mode-independent key component(s) {ev} of key={U(key)}: "
+                                         "what they put last under 'min' (e.g. failed / NaN entries) comes first under 'max'")
         return "reverse-kw", m == "max" and not neg, f"reverse=(mode=='max'), key={U(key) if key is not None else None}"
     if isinstance(par, ast.IfExp) and par.test is node:
         amin, amax = (par.body, par.orelse) if m == "min" else (par.orelse, par.body)
